@@ -315,6 +315,7 @@ type out struct {
 	MaxBound   int64     `json:"max_bound"`
 	MaxIter    int64     `json:"max_iter"`
 	Discarded  int       `json:"discarded"`
+	TimedOut   int       `json:"timed_out"`
 	Sigs       []string  `json:"sigs"`
 	Fail       []failure `json:"fail"`
 	Samples    []string  `json:"samples"`
@@ -408,7 +409,10 @@ func worker(kind string, data json.RawMessage) any {
 					o.MaxIter = int64(steps)
 				}
 				if got.Err == "timeout" {
+					// slowness is not a stack-neutrality question: inconclusive, never a violation
 					timeouts++
+					o.TimedOut++
+					break
 				}
 				if d := rz.Diff(want, got); d != "" {
 					sig := "scaled-bound:disagrees-with-model"
@@ -646,6 +650,9 @@ func drive(d *mon.Driver, replay string) int {
 		d.Event("finished-runs-with-sp-0", o.Finished)
 		d.Event("scaled-runs", o.ScaledRuns)
 		d.Event("discarded-undecided", o.Discarded)
+		for k := 0; k < o.TimedOut; k++ {
+			d.Inconclusive("a scaled-bound run hit the 60 s watchdog (slow, not judged)")
+		}
 		sites += int64(o.Sites)
 		samples += int64(o.DepthSamp)
 		if o.MaxBound > maxBound {
